@@ -9,7 +9,7 @@ BASE = {
     "Names": '{"n1", "n2"}', "Types": '{"t1", "t2"}', "Classes": '{"c1", "c2"}', "Flags": "{0, 1, 2, 3, 4, 5, 6, 7}",
     "Kinds": '{"std"}', "KeyFields": "<- AllKey", "Resps": "<- RespsOne", "LazyTTLs": "{0}", "Ticks": "{1}",
     "MaxNow": "0", "MaxOps": "2", "NxMax": "30", "SfMax": "5", "EmptyMax": "300", "StaleTTL": "5",
-    "TTLMode": '"stored"', "Admit": '"rule"', "Dedup": "TRUE", "Alias": '"none"', "DumpFields": "<- AllDump",
+    "TTLMode": '"stored"', "Admit": '"rule"', "Dedup": "TRUE", "RefreshOwner": '"asked"', "Alias": '"none"', "DumpFields": "<- AllDump",
     "Insts": "{1}", "OpKinds": '{"exec"}', "MaxHandles": "0", "WithHist": "FALSE",
 }
 ALL_INV = ("TypeOK NoSharing BypassRule TTLRule StaleRule AdmissionRule NeverServedAfterExpiry AtMostOneRefresh "
@@ -102,6 +102,12 @@ def all_maps():
     for x in range(8):
         for p in PERMS:
             maps.append(mk("flags:xor%d:perm%s" % (x, "".join(map(str, p))), fxor=x, fperm=p))
+    # position of the OPT within the additional section of the query the plugin receives
+    for pos in ("x-opt", "opt-x", "x-opt-y", "opt-tsig"):
+        for x in range(8):
+            mm = mk("optpos:%s:xor%d" % (pos, x), fxor=x, fperm=PERMS[x % 6])
+            mm["optpos"] = pos
+            maps.append(mm)
     # everything adversarial at once
     maps.append(mk("combo", names={"n1": NAME_PAIRS[2][1], "n2": NAME_PAIRS[2][2]}, types={"t1": 1, "t2": 257, "t3": 513},
                    classes={"c1": 1, "c2": 257}, fxor=5, fperm=[2, 0, 1]))
